@@ -146,6 +146,7 @@ def check_fast(part, basis, nvar, twice=True):
                 part.violation("find-fast", case, {"variant": vname, "raised": r})
             continue
         names = r[1]
+        part.outcomes.add(tuple(sorted(names)))
         bad = [n for n in names if n not in F.FAST]
         wrong = [n for n in F.FAST if exp[n] != F.UNDEF and (n in names) != exp[n]]
         if bad or wrong:
